@@ -1,0 +1,64 @@
+// ------------------------------------------------------------------------
+// Gufo SNMP: Verification hooks
+// ------------------------------------------------------------------------
+// Compiled only with `--features verif`. Add-only: re-exports and plain
+// projections which let an external runtime-monitoring harness drive
+// otherwise private items. Never part of the shipped library.
+// ------------------------------------------------------------------------
+
+pub use crate::privacy::{PrivKey, SnmpPriv};
+use crate::snmp::value::SnmpValue;
+
+/// Plain, comparable projection of a decoded value
+#[derive(Debug, Clone, PartialEq)]
+pub enum VerifValue {
+    Bool(bool),
+    Int(i64),
+    Null,
+    OctetString(Vec<u8>),
+    Oid(Vec<u8>),
+    ObjectDescriptor(Vec<u8>),
+    /// f64 bit pattern, so NaN and -0.0 are comparable
+    Real(u64),
+    IpAddress(String),
+    Counter32(u32),
+    Gauge32(u32),
+    TimeTicks(u32),
+    Opaque(Vec<u8>),
+    Counter64(u64),
+    UInteger32(u32),
+    NoSuchObject,
+    NoSuchInstance,
+    EndOfMibView,
+}
+
+pub fn project(v: SnmpValue) -> VerifValue {
+    match v {
+        SnmpValue::Bool(x) => VerifValue::Bool(x.into()),
+        SnmpValue::Int(x) => VerifValue::Int(x.into()),
+        SnmpValue::Null => VerifValue::Null,
+        SnmpValue::OctetString(x) => VerifValue::OctetString(x.0.to_vec()),
+        SnmpValue::Oid(x) => VerifValue::Oid(x.0.to_vec()),
+        SnmpValue::ObjectDescriptor(x) => VerifValue::ObjectDescriptor(x.0.to_vec()),
+        SnmpValue::Real(x) => VerifValue::Real(f64::from(x).to_bits()),
+        SnmpValue::IpAddress(x) => VerifValue::IpAddress((&x).into()),
+        SnmpValue::Counter32(x) => VerifValue::Counter32(x.0),
+        SnmpValue::Gauge32(x) => VerifValue::Gauge32(x.0),
+        SnmpValue::TimeTicks(x) => VerifValue::TimeTicks(x.0),
+        SnmpValue::Opaque(x) => VerifValue::Opaque(x.0.to_vec()),
+        SnmpValue::Counter64(x) => VerifValue::Counter64(x.0),
+        SnmpValue::UInteger32(x) => VerifValue::UInteger32(x.0),
+        SnmpValue::NoSuchObject => VerifValue::NoSuchObject,
+        SnmpValue::NoSuchInstance => VerifValue::NoSuchInstance,
+        SnmpValue::EndOfMibView => VerifValue::EndOfMibView,
+    }
+}
+
+/// Seed the per-key salt counter, so wrap-around is reachable
+pub fn set_salt(k: &mut PrivKey, v: u64) {
+    match k {
+        PrivKey::NoPriv(_) => {}
+        PrivKey::Des(x) => x.verif_set_salt(v as u32),
+        PrivKey::Aes128(x) => x.verif_set_salt(v),
+    }
+}
